@@ -17,7 +17,7 @@ import (
 func init() {
 	register(Property{ID: "C11", Level: "proof", Run: runC11,
 		Technique: "static analysis: type-graph walk (go/types) from conf.Conf and conf.Path against the kind cases of conf.deepClone, AST shape rules on each case, SSA rule on the Clone methods",
-		Text: "Every type reachable from conf.Conf and conf.Path (all fields, including json:\"-\" ones) is of a kind for which conf.deepClone has a case that allocates a fresh container and recurses into every element (pointer, struct, slice, map, interface), or is a value kind; reference kinds without a case (func, chan, unsafe pointer), module-defined structs with unexported fields (silently dropped by CanSet) and opaque third-party structs outside a one-row table are violations. Each case of deepClone allocates, recurses, and returns the input unchanged only under IsNil. Conf.Clone/Path.Clone call deepClone on the receiver value. Together: a clone shares no mutable storage with the original. Obligations = reachable types + switch cases + Clone methods.",
+		Text: "Every type reachable from conf.Conf and conf.Path (all fields, including json:\"-\" ones) is of a kind for which conf.deepClone has a case that allocates a fresh container and recurses into every element (pointer, struct, slice, map, interface), or is a value kind; reference kinds without a case (func, chan, unsafe pointer), module-defined structs with unexported fields (silently dropped by CanSet) and opaque third-party structs outside a one-row table are violations. Each case of deepClone allocates, recurses, and returns the input unchanged only under IsNil. Conf.Clone/Path.Clone call deepClone on the receiver value - the whole, unmodified receiver: no receiver field is overwritten before the call, no field of the result is assigned afterwards (except from a deepClone of the receiver's same field), and the method contains no map update, store through a reference or call other than reflect.ValueOf → deepClone → Interface. Together: a clone shares no mutable storage with the original. Obligations = reachable types + switch cases + Clone methods.",
 		Note: "trusted: reflect semantics (New/MakeSlice/MakeMap/Set, CanSet false for unexported fields); the dynamic values behind interface-typed fields (OptionalPath.Values, built with reflect.StructOf from Path's own fields) consist of kinds in the same graph; table exception: Path.Regexp *regexp.Regexp is re-allocated with zeroed unexported fields - not shared, hence independent (its usability is C12/C15's concern)"})
 	addMutants(
 		Mutant{"C11", "slice-returned-shallow", "internal/conf/conf.go",
@@ -33,6 +33,12 @@ func init() {
 			"type Path struct {\n", "type Path struct {\n	OnChange func() `json:\"-\"`\n", "C11.kind_handled"},
 		Mutant{"C11", "clone-is-shallow-copy", "internal/conf/path.go",
 			"	cloned := deepClone(reflect.ValueOf(pconf)).Interface().(Path)\n	return &cloned", "	cloned := pconf\n	return &cloned", "C11.clone_method"},
+		Mutant{"C11", "clone-paths-map-copied-shallowly", "internal/conf/conf.go",
+			"	cloned := deepClone(reflect.ValueOf(conf)).Interface().(Conf)\n	return &cloned",
+			"	paths := conf.Paths\n	conf.Paths = nil\n	cloned := deepClone(reflect.ValueOf(conf)).Interface().(Conf)\n	cloned.Paths = make(map[string]*Path, len(paths))\n	for name, pa := range paths {\n		cloned.Paths[name] = pa\n	}\n	return &cloned", "C11.clone_method.whole"},
+		Mutant{"C11", "clone-field-reassigned-from-original", "internal/conf/path.go",
+			"	cloned := deepClone(reflect.ValueOf(pconf)).Interface().(Path)\n	return &cloned",
+			"	cloned := deepClone(reflect.ValueOf(pconf)).Interface().(Path)\n	cloned.AlwaysAvailableTracks = pconf.AlwaysAvailableTracks\n	return &cloned", "C11.clone_method.whole"},
 		Mutant{"C11", "pointer-shared", "internal/conf/conf.go",
 			"		newPtr := reflect.New(rv.Elem().Type())\n		newPtr.Elem().Set(deepClone(rv.Elem()))\n		return newPtr", "		return rv", "C11.case_shape"},
 	)
@@ -49,7 +55,7 @@ func runC11(c *Ctx) {
 	if p == nil {
 		return
 	}
-	c.Explain = "Type-graph walk from conf.Conf and conf.Path over all struct fields; per reachable type the kind must be handled by a case of deepClone's `switch rv.Kind()` (pointer, struct, slice, map, interface) or be a value kind (bool, numbers, string, arrays of value kinds); func/chan/unsafe.Pointer, module structs with unexported fields and untabled opaque structs are violations. Each handled case must allocate (reflect.New / MakeSlice / MakeMap), call deepClone on the elements and return rv only under rv.IsNil(). Clone methods must return the address of deepClone(reflect.ValueOf(receiver)). Not decided: reflect's own behaviour; value equality of the copy (C08)."
+	c.Explain = "Type-graph walk from conf.Conf and conf.Path over all struct fields; per reachable type the kind must be handled by a case of deepClone's `switch rv.Kind()` (pointer, struct, slice, map, interface) or be a value kind (bool, numbers, string, arrays of value kinds); func/chan/unsafe.Pointer, module structs with unexported fields and untabled opaque structs are violations. Each handled case must allocate (reflect.New / MakeSlice / MakeMap), call deepClone on the elements and return rv only under rv.IsNil(). Clone methods must return the address of deepClone(reflect.ValueOf(receiver)); clone_method.whole: stores in a Clone method are whole-variable initialisations of locals only - a store into a field of the receiver copy (masking) needs a store of deepClone(reflect.ValueOf($0.F)) into the same field of the result, a store into a result field needs that shape too; MapUpdate, stores through non-local addresses and calls outside {reflect.ValueOf, conf.deepClone, reflect.Value.Interface/Elem/Addr, reflect.Indirect} are violations. Not decided: reflect's own behaviour; value equality of the copy (C08)."
 	c.Assume = []string{"reflect behaves as documented", "values stored behind interface-typed conf fields are built from kinds in the same graph (reflect.StructOf over Path/Conf fields)"}
 
 	pk := p.Pkg("internal/conf")
@@ -245,6 +251,8 @@ func runC11(c *Ctx) {
 			}
 		}
 		c.Check("C11.clone_method", "conf."+recv+".Clone returns deepClone(reflect.ValueOf(receiver))", ok, p.Pos(fn.Pos()), "got "+got)
+		// ... of the WHOLE, unmodified receiver, and nothing is attached to the result afterwards (prop_r3_c11.go)
+		c11CloneOnlyDeepClone(c, p, recv, fn)
 	}
 	// every other Clone-like method on conf types reachable from Conf must not exist silently
 	_ = ssa.Function{}
